@@ -195,8 +195,12 @@ fn gen_req(rng: &mut Rng, rem_words: usize) -> Req {
 
 pub fn play(b: &[u8], script: &[Req], r: &mut Report, rp: &dyn Fn() -> Json) -> bool {
     // exact-size heap copy so that sanitizer red zones are adjacent to the buffer
-    let boxed: Box<[u8]> = b.to_vec().into_boxed_slice();
-    let buf: &[u8] = &boxed;
+    // ... placed at every alignment modulo 4 (a byte slice may start anywhere): `lead` filler bytes in front
+    let lead = (b.len() / 3 + b.first().copied().unwrap_or(0) as usize + script.len()) % 4;
+    let mut v = vec![0x55u8; lead];
+    v.extend_from_slice(b);
+    let boxed: Box<[u8]> = v.into_boxed_slice();
+    let buf: &[u8] = &boxed[lead..];
     let mut d = Decoder::new(buf);
     let mut m = Model { b: buf, off: 0, lim: Lim::None, set_at: None };
     verif::record(true);
